@@ -117,6 +117,16 @@ CLAIMED["C11"] = dict(
          "all-empty Tsd members loads as Ts.",
     technique="translator-regenerated key tables + Coq round-trip proof over a hand model of readers and constructors; extracted model vs real save/load_file/Folder round trips",
     design="5 C11")
+CLAIMED["C14"] = dict(
+    text="PARTIAL proof: for every NumPy function f (a universally quantified parameter with the single law 'an array result fills its shape') and every shape, pynapple's wrappers "
+         "never alter NumPy's numbers, re-attach x's timestamps/support exactly when the result's axis 0 has the index length (square-shape ambiguity included), keep column labels "
+         "iff frame->frame with equal column count, always wrap element-wise results (each output of a multi-output ufunc too), pass 0-d results through, concatenate along time only "
+         "for strictly increasing timestamps (time = append, support = union, rows = append) and split into pieces that partition timestamps with their rows; four clauses false of "
+         "the faithful model are stated as _refuted theorems (known findings).",
+    note="Trusted: Coq kernel; Model/NpWrap.v tied by exact (np.array_equal) correspondence over 378 call forms x 20 shapes plus complete small concatenate/split spaces; NumPy's "
+         "numerics are a Section parameter; NumPy's split points, row-major concatenate and allclose broadcasting are transcribed; in-place operators and metadata not modelled.",
+    technique="Coq proof over an executable model with abstract cells and abstract NumPy functions + extracted-model/implementation correspondence",
+    design="5 C14")
 REASON_TODO = "check not built yet in this round (planned: DESIGN.md section 5)"
 m = {
     "version": 1,
